@@ -1,3 +1,3 @@
 #!/bin/sh
 # usage: mutbatch.sh "dir:CXX dir:CXX ..."  (dir relative to /tmp/mut-)
-for m in $1; do d=${m%%:*}; c=${m##*:}; echo "=== $d $c"; python3 -c "import json; print(json.load(open('/tmp/mut-$d/meta.json'))['title'])"; /verif/tools/trymutant.sh /tmp/mut-$d/patch.diff $c | grep -v "KNOWN-FINDING\|VIOLATION(model)"; done
+for m in $1; do d=${m%%:*}; c=${m##*:}; echo "=== $d $c"; python3 -c "import json; print(json.load(open('/tmp/mut-$d/meta.json'))['title'])"; /verif/tools/trymutant.sh /tmp/mut-$d/patch.diff $c | grep -v "KNOWN-FINDING\|model-refuted"; done
